@@ -44,15 +44,16 @@ def canon(g):
 def expand(g, dyn=False):
     """the model's graph for one implementation graph: [fields, notify, extra, children]; a named trait has
     one field, a filter node the names it matches; extra = the node contributes the trait_added graph (not the
-    item observers); children in one canonical order (ObserverGraph equality ignores child order); no
-    optional flag (the model skips a named observer on objects without the trait)"""
+    item observers); optional = the observer's optional flag; children in one canonical order (ObserverGraph
+    equality ignores child order)"""
     head, notify, _o, children = g
     if head == "|":                       # "a | b" at the top of an expression: several graphs, one observe() call
         return [x for c in children for x in expand(c)]
     cs = sorted((x for c in children for x in expand(c)), key=lambda c: json.dumps(c))
     names = FILTERS[head] if isinstance(head, str) else [head]
     extra = isinstance(head, str) or head not in (6, 7, 8, 17)
-    return [[list(names), bool(notify), extra, cs]]
+    optional = True if isinstance(head, str) else bool(_o)       # a filter never complains about a missing trait
+    return [[list(names), bool(notify), extra, optional, cs]]
 
 
 def canon_nopt(g):
@@ -63,8 +64,8 @@ def canon_nopt(g):
 
 
 def mterm(m):
-    fs, notify, extra, children = m
-    return C("G", nats(fs), bool(notify), bool(extra), [mterm(c) for c in children])
+    fs, notify, extra, optional, children = m
+    return C("G", nats(fs), bool(notify), bool(extra), bool(optional), [mterm(c) for c in children])
 
 
 def gterm(g):
@@ -89,6 +90,9 @@ def op_term(op, dyn=False):
         return C("SetCont", Nat(op[1]), Nat(op[2]), nats(items), bool(op[4]))
     if k == "Touch":
         return C("Touch", Nat(op[1]), Nat(op[2]))
+    if k == "TouchItems":
+        items = [a[1] for a in op[3]] if op[2] == 4 else list(op[3])
+        return C("TouchItems", Nat(op[1]), Nat(op[2]), nats(items))
     if k == "Cop":
         i, n, vs = op[5]
         return C("Splice", Nat(op[1]), Nat(op[2]), Nat(i), Nat(n), nats(vs))
@@ -125,13 +129,9 @@ def undelta(obs):
 
 
 def obs_term(ob, prev_heap, expect_valueerror=False):
-    # ValueError out of an assignment is the documented response when the rest of a NON-optional expression cannot
-    # be hooked on the new value (the value is stored, the old value is unhooked, the user notifier has been
-    # called): where the case marks the operation with "raises" it is canonicalised to Ok; anywhere else it is
-    # an unexpected exception
+    # ValueError out of an assignment / registration is the documented response when the rest of a NON-optional
+    # expression cannot be hooked (model: Model.walkable; law: Law.unhookable decides where it is allowed)
     o = ob["out"]
-    if o == "ValueError":
-        o = "Ok" if expect_valueerror else "OtherError"
     out = C("Ok") if o == "Ok" else C("Raise", C(o))
     calls = [((Nat(c[0]), Nat(c[1])), atom(c[2]), Nat(c[3]), nats(c[4]), nats(c[5])) for c in ob["calls"]]
     delta = []
@@ -173,7 +173,7 @@ def opkind(op):
         return "AddTrait." + FIELD[op[2]]
     if op[0] in ("Cop", "CopNew"):
         return "%s.%s" % (FIELD[op[2]], op[3])
-    if op[0] in ("SetRef", "SetCont", "Touch"):
+    if op[0] in ("SetRef", "SetCont", "Touch", "TouchItems"):
         return "%s.%s" % (op[0], FIELD[op[2]])
     return op[0]
 
@@ -423,10 +423,20 @@ def gen_case(rnd, ctx, maxmut, cyclic=False):
             sh.new_cont(o, f, [list(a) for a in items] if f == 4 else items)
             # (del o.kids is not drawn at random: it is a finding, see the corpus trigger del-container)
             return ["SetCont", o, f, items, de]
-        if r < 0.47:
+        if r < 0.50:
             f = rnd.choice([3, 4, 5])
             if sh.cont[(o, f)] is not None:
                 return None
+            if rnd.random() < 0.5:
+                # the default has content (a _name_default method): it is hooked when it materialises
+                vals = [y for y in range(npool) if not sh.reaches(y, o)]
+                if vals:
+                    vs = [rnd.choice(vals) for _ in range(rnd.randint(1, 2))]
+                    if f == 5:
+                        vs = sorted(set(vs))
+                    items = [[key, v] for key, v in zip(["a", "b"], vs)] if f == 4 else vs
+                    sh.new_cont(o, f, [list(a) for a in items] if f == 4 else list(items))
+                    return ["TouchItems", o, f, items]
             sh.new_cont(o, f, [])
             return ["Touch", o, f]
         # in-place container operation, on an attached container or (sometimes) a detached one
@@ -779,6 +789,11 @@ def corpus():
     cs.append(dict(npool=3, shape="acyclic", ops=[
         ["SetRef", 0, 1, 1], ["Observe", 0, 0, tv], ["AddTrait", 0, 13], ["SetRef", 0, 13, 2]] + probes_for(3) + [
         ["SetRef", 0, 1, None]] + probes_for(3) + [["SetRef", 0, 13, None]] + probes_for(3)))
+    # a container default WITH content materialised after registration: its items are hooked, nobody is called
+    cs.append(dict(npool=3, shape="acyclic", ops=[
+        ["Observe", 0, 0, kiv], ["TouchItems", 0, 3, [1, 2]]] + probes_for(3) + [
+        ["Cop", 3, 6, "pop", [0], [0, 1, []]]] + probes_for(3) + [
+        ["Observe", 1, 0, parse_named("m.items.value")], ["TouchItems", 0, 4, [["a", 2]]]] + probes_for(3)))
     # finding: del o.kids notifies twice, the new default list is hooked twice; once replaced it keeps calling
     ki = parse_named("kids.items")
     cs.append(dict(npool=3, shape="acyclic-del", name="del-container", ops=[
@@ -808,6 +823,10 @@ def gen_strict_case(rnd, ctx):
     ops = [["AddTrait", 1, 12], ["SetRef", 0, 1, 1]]
     if rnd.random() < 0.6:
         ops.append(["SetRef", 1, 12, 3])
+    if rnd.random() < 0.4:
+        # a registration that fails (object 2 has no x1): ValueError, nothing may change
+        bad = g if rnd.random() < 0.5 else ["|", True, False, [[0, True, False, []], g]]   # "value | f.x1...": the
+        ops += [["SetRef", 0, 1, 2], ["Observe", 0, 0, bad]] + probes_for(4) + [["SetRef", 0, 1, 1]]  # first graph is undone
     ops.append(["Observe", 0, 0, g])
     ops += probes_for(4)
     ops.append(["SetRef", 0, 1, 2, "raises"])          # object 2 has no x1
@@ -823,7 +842,7 @@ def gen_strict_case(rnd, ctx):
         ops.append(["SetRef", 0, 1, None])
         ops += probes_for(4)
     ctx.count("strict-expr:" + show_graph(g))
-    return dict(npool=4, shape="acyclic", ops=ops)
+    return dict(npool=4, shape="strict", ops=ops)
 
 
 def gen_dyn_case(rnd, ctx):
@@ -842,6 +861,15 @@ def gen_dyn_case(rnd, ctx):
     g = rnd.choice(shapes)
     if '"tag"' in json.dumps(g):
         d = 13                # the dynamic trait that carries tag=True
+
+    def strictify(x):
+        # x1 (12) is always observed with optional=False, x2 (13) with optional=True (Model.required)
+        if x[0] == 12:
+            x[2] = False
+        for c in x[3]:
+            strictify(c)
+    g = json.loads(json.dumps(g))
+    strictify(g)
     ops = []
     have = set()          # (object, dynamic field) added so far
     ref = {}
@@ -887,6 +915,11 @@ def gen_dyn_case(rnd, ctx):
         items = [rnd.randrange(o + 1, npool) for _ in range(rnd.randint(1, 2))]
         return ["SetCont", o, 3, items, False]
 
+    if d == 12:
+        # a non-optional observer: every object gets the trait first (the failing side is gen_strict_case)
+        for o in range(npool):
+            have.add((o, 12))
+            add(["AddTrait", o, 12])
     for _ in range(rnd.randint(0, 4)):
         m = mutation()
         if m:
@@ -925,46 +958,6 @@ def truncate_replays(ctx):
             pass
 
 
-def run_strict(ctx, cases):
-    """Histories in which hooking a NON-optional expression on a new value fails with ValueError: after the failed
-    walk is undone the implementation has no notifier at all on the new object (not even the trait_added
-    maintainers the model keeps), so the model is not compared; the property law is evaluated on the
-    implementation's observations (the detached old value must be silent, nothing else raises)."""
-    name = "law on histories with an unhookable new value (ValueError expected; law only, no model)"
-    rc, obs, err = ctx.run_driver(DRIVER, cases)
-    if rc != 0 or obs is None or len(obs) != len(cases):
-        ctx.obligation(name, False, "driver failed: " + err[-300:])
-        ctx.fail("harness/strict", "strict histories could not be run: " + err[-300:], dict(error=err[-1500:]),
-                 no_input=True)
-        return
-    terms = [to_term(c, o) for c, o in zip(cases, obs)]
-    try:
-        (res,) = coqrun.eval_cases(ctx.scratch, "strict", HEADER, CASE_T, terms, ["law_codes"])
-    except coqrun.CoqError as e:
-        ctx.obligation(name, False, str(e)[-300:])
-        ctx.fail("harness/strict", "strict histories could not be evaluated: %s" % e, dict(error=e.log[-1500:]),
-                 no_input=True)
-        return
-    for c, o in zip(cases, obs):
-        sig, nt = nontrivial(c, o)
-        ctx.case_seen("strict" + sig, nt)
-    seen = set()
-    for i, code in sorted(res):
-        step, clause = code // 100, code % 100
-        key = "strict/" + key_fn(cases[i], obs[i], step, clause)
-        if key in seen:
-            continue
-        seen.add(key)
-        case = dict(cases[i])
-        case["ops"] = case["ops"][:step + 1]
-        ctx.fail(key, "unhookable new value: " + describe(cases[i], obs[i], step, clause),
-                 dict(kind="law-failure-on-implementation", clause=clause, step=step, case=case,
-                      impl_obs=obs[i][:step + 1]))
-    raised = sum(1 for o in obs for ob in o if ob["out"] == "ValueError")
-    ctx.obligation(name, not res, "%d histories, %d expected ValueErrors, %d law failures" % (
-        len(cases), raised, len(set(i for i, _ in res))))
-
-
 def check_hyps(ctx, cases):
     """Evaluate the hypotheses of the theorems (Model.hyps) on the model run of every case."""
     terms = [(Nat(c["npool"]), [op_term(o) for o in c["ops"]]) for c in cases]
@@ -978,7 +971,7 @@ def check_hyps(ctx, cases):
     bad = set(i for i, _ in res)
     acyc_bad = sorted(i for i in bad if cases[i].get("shape") == "acyclic")
     cyc = [i for i, c in enumerate(cases) if c.get("shape") != "acyclic"]
-    ctx.obligation(name, not acyc_bad, "hyps = true on %d of %d acyclic histories; false on %d of %d trigger histories of the findings" % (
+    ctx.obligation(name, not acyc_bad, "hyps = true on %d of %d acyclic histories; false on %d of %d histories outside the hypotheses (finding triggers, failing walks)" % (
         len(cases) - len(cyc) - len(acyc_bad), len(cases) - len(cyc), sum(1 for i in cyc if i in bad), len(cyc)))
     if acyc_bad:
         ctx.notes.append("hyps false on acyclic case %d: %r" % (acyc_bad[0], cases[acyc_bad[0]]["ops"]))
@@ -1011,7 +1004,7 @@ def run(ctx):
     else:
         cases = corpus() + [gen_case(rnd, ctx, maxmut) for _ in range(n)]
         cases += [gen_dyn_case(rnd, ctx) for _ in range(n // 4)]       # histories with add_trait
-        strict = [gen_strict_case(rnd, ctx) for _ in range(max(20, n // 50))]  # non-optional observers that fail
+        cases += [gen_strict_case(rnd, ctx) for _ in range(max(20, n // 50))]  # non-optional observers that fail
         import os
         for i in range(int(os.environ.get("VERIF_C08_CYCLE_SEARCH", "0"))):   # development aid: look for F14 triggers
             c = gen_case(rnd, ctx, 5, cyclic=True)
@@ -1021,8 +1014,6 @@ def run(ctx):
         ctx.sample(c)
     hist.run(ctx, DRIVER, cases, to_term, HEADER, CASE_T, key_fn, describe, nontrivial,
              relation="C08.Corr.corr_codes (Model.step = observe machinery on every step)", do_shrink=False)
-    if not ctx.replay:
-        run_strict(ctx, strict)
     truncate_replays(ctx)
     if not ctx.replay:
         check_hyps(ctx, cases)
